@@ -34,6 +34,8 @@ from bitcoinlib.services.services import Service
 from bitcoinlib.transactions import Input, Output, Transaction, get_unlocking_script_type, TransactionError
 from bitcoinlib.scripts import Script
 from sqlalchemy import func, or_
+from sqlalchemy.orm.util import identity_key
+from sqlalchemy.orm.attributes import set_committed_value
 
 _logger = logging.getLogger(__name__)
 
@@ -3106,6 +3108,11 @@ class Wallet(object):
             if kb['id'] in self._key_objects:
                 self._key_objects[kb['id']]._balance = kb['balance']
         self.session.bulk_update_mappings(DbKey, key_balance_list)
+        # Bulk update bypasses loaded objects and the session does not expire on commit: sync loaded DbKey objects
+        for kb in key_balance_list:
+            dbkey_loaded = self.session.identity_map.get(identity_key(DbKey, kb['id']))
+            if dbkey_loaded is not None:
+                set_committed_value(dbkey_loaded, 'balance', kb['balance'])
         self._commit()
         _logger.info("Got balance for %d key(s)" % len(key_balance_list))
         return self._balances
